@@ -76,14 +76,14 @@ func (e *famEnv) flush(entries []Entry) (err error) {
 	return fl.Close()
 }
 
-// compact runs one compaction job synchronously (verif export kv.VerifCompactSync).
+// compact runs one compaction job synchronously (verif export kv.VerifC03CompactSync).
 func (e *famEnv) compact() (err error, panicked interface{}) {
 	defer func() {
 		if r := recover(); r != nil {
 			panicked = r
 		}
 	}()
-	err = kv.VerifCompactSync(e.fam)
+	err = kv.VerifC03CompactSync(e.fam)
 	return
 }
 
